@@ -13,6 +13,7 @@ import (
 	"crypto/tls"
 	"encoding/base64"
 	"fmt"
+	"io"
 	"net"
 	"net/http"
 	"time"
@@ -49,8 +50,13 @@ func wshsDirect(seed uint64, tier string, args []string, w *bufio.Writer) {
 		time.Sleep(300 * time.Millisecond)
 	}
 
+	onlyAsync := len(args) > 0 && args[0] == "only=async-failure"
 	// 1. failing TLS dials
-	for _, variant := range []string{"refused", "closed-during-tls-setup"} {
+	variants := []string{"refused", "closed-during-tls-setup"}
+	if onlyAsync {
+		variants = nil
+	}
+	for _, variant := range variants {
 		func() {
 			defer func() {
 				if p := recover(); p != nil {
@@ -104,6 +110,9 @@ func wshsDirect(seed uint64, tier string, args []string, w *bufio.Writer) {
 
 	// 2. the first frame arrives later than the dial timeout after the connection was made
 	func() {
+		if onlyAsync {
+			return
+		}
 		defer func() {
 			if p := recover(); p != nil {
 				fail("quiet-period", "panicked: %v", p)
@@ -130,5 +139,75 @@ func wshsDirect(seed uint64, tier string, args []string, w *bufio.Writer) {
 		}
 		_ = ws.CloseNextLayer()
 	}()
+	// 3. AsyncHandshake whose upgrade is refused (the server answers 400 and keeps the connection): the completion is posted to the
+	// loop by the dialling goroutine; the failure callback handshakes again on the same Stream, at once, with a conforming server.
+	// The new session must work — and, in the race-detector build of this monitor (property C05), the dialling goroutine must be
+	// done with the Stream when it posts the completion.
+	rounds := 6
+	if onlyAsync {
+		rounds = 30
+	}
+	for round := 0; round < rounds; round++ {
+		func() {
+			defer func() {
+				if p := recover(); p != nil {
+					fail("async-failure", "panicked: %v", p)
+				}
+			}()
+			ws, err := websocket.NewWebsocketStream(ioc, nil, websocket.RoleClient)
+			if err != nil {
+				return
+			}
+			bad, err := net.Listen("tcp", "127.0.0.1:0")
+			if err != nil {
+				return
+			}
+			defer bad.Close()
+			go func() {
+				c, err := bad.Accept()
+				if err != nil {
+					return
+				}
+				defer c.Close()
+				if _, err := http.ReadRequest(bufio.NewReader(c)); err != nil {
+					return
+				}
+				fmt.Fprintf(c, "HTTP/1.1 400 Bad Request\r\nContent-Length: 0\r\n\r\n")
+				_, _ = io.Copy(io.Discard, c) // until the client closes
+			}()
+			good, err := net.Listen("tcp", "127.0.0.1:0")
+			if err != nil {
+				return
+			}
+			defer good.Close()
+			go serve(good, 0)
+			firstErr, secondDone := error(nil), false
+			var secondErr error
+			firstDone := false
+			ws.AsyncHandshake("ws://"+bad.Addr().String()+"/", func(err error) {
+				firstDone, firstErr = true, err
+				ws.AsyncHandshake("ws://"+good.Addr().String()+"/", func(err error) { secondDone, secondErr = true, err })
+			})
+			deadline := time.Now().Add(3 * time.Second)
+			for !secondDone && time.Now().Before(deadline) {
+				_ = ioc.RunOneFor(5 * time.Millisecond)
+			}
+			switch {
+			case !firstDone:
+				fail("async-failure", "the callback of an AsyncHandshake whose upgrade was refused never ran")
+			case firstErr == nil:
+				fail("async-failure", "an AsyncHandshake answered with 400 reported success")
+			case !secondDone:
+				fail("async-failure", "the AsyncHandshake started from the failure callback never completed")
+			case secondErr != nil || ws.State() != websocket.StateActive:
+				fail("rehandshake", "AsyncHandshake from the failure callback of a refused upgrade: err=%v state=%v", secondErr, ws.State())
+			default:
+				if f, err := ws.NextFrame(); err != nil || string(f.Payload()) != "hi" {
+					fail("rehandshake", "first frame of the session opened from the failure callback: err=%v", err)
+				}
+			}
+			_ = ws.CloseNextLayer()
+		}()
+	}
 	fmt.Fprintf(w, "DIRECT-STAT {\"wshandshake_direct_failures\": %d}\n", fails)
 }
